@@ -226,7 +226,7 @@ func init() {
 	})
 	register(&propDef{
 		ID:          "C02",
-		Explanation: "Decides the NF discipline in the predicate machinery (evalPredicate, applyFilter, arrayify, normalizeArray and the evalPath->evalPathStep->evalOverArray chain a filter path enters with an array item): every reflect accessor receiver is provably resolved on every path, interprocedurally. This is the clause behind the two panics the property names (x[$$.idx], arr[o] on [[1]]). (W) evalPredicate, applyFilter and their helpers write no pre-existing memory and keep no state between calls. (LISTFLOW) in evalPredicate every filter is applied to arrayify of the step's own value or of the survivor list the previous applyFilter returned, and the result is no value or normalizeArray of those survivors — never an element picked out of the list, which arrayify would mistake for the list when it is itself an array. NOT decided: floor/negative index arithmetic, boolean casting, number-array detection, step-local vs whole-path attachment (value-level). (F2I) the numeric predicate is floored (math.Floor) before it becomes an integer position: no float-to-integer conversion in the predicate machinery truncates. (FILTERALL) the loop of applyFilter over the items is left from inside its body only by error returns: every item is judged. (ACCFRESH) every reflect.Append in applyFilter appends to a value rooted in reflect.MakeSlice (through appends, phis and parameters judged at every call).",
+		Explanation: "Decides the NF discipline in the predicate machinery (evalPredicate, applyFilter, arrayify, normalizeArray and the evalPath->evalPathStep->evalOverArray chain a filter path enters with an array item): every reflect accessor receiver is provably resolved on every path, interprocedurally. This is the clause behind the two panics the property names (x[$$.idx], arr[o] on [[1]]). (W) evalPredicate, applyFilter and their helpers write no pre-existing memory and keep no state between calls. (LISTFLOW) in evalPredicate every filter is applied to arrayify of the step's own value or of the survivor list the previous applyFilter returned, and the result is no value or normalizeArray of those survivors — never an element picked out of the list, which arrayify would mistake for the list when it is itself an array. NOT decided: floor/negative index arithmetic, boolean casting, number-array detection, step-local vs whole-path attachment (value-level). (F2I) the numeric predicate is floored (math.Floor) before it becomes an integer position: no float-to-integer conversion in the predicate machinery truncates. (FILTERALL) the loop of applyFilter over the items is left from inside its body only by error returns: every item is judged. (ACCFRESH) every reflect.Append in applyFilter appends to a value rooted in reflect.MakeSlice (through appends, phis and parameters judged at every call). FILTERALL also requires that every eval of the filter node gets an element of the item list as its context.",
 		Rule:        commonRule,
 		Fixtures:    []string{"nf", "w"},
 		Run: func(c *Ctx, r *Result) {
@@ -286,12 +286,14 @@ func init() {
 	})
 	register(&propDef{
 		ID:          "C04",
-		Explanation: "Extracts the complete parameter set of the Pratt parser from the current source — lexeme->token tables (symbols1, symbols2, lookupKeyword), the binding-power rows and the formula initBindingPowers applies to them, lookupBp, the single binding of the parser's lookup fields, the loop test of parseExpression, each led's recursive right-binding power, the nud/led tables, the lexeme->token->operator-constant->String() chain, and the allowRegex flag of every token consumption that is followed by an operand or by a return to the Pratt loop — and compares it with the precedence relation written in the property (10 rows, all left-associative except := and the greedy else branch). For the token set of the language these parameters determine the parse of every operator chain, so a one-row move, a flipped associativity, a <= in the loop, a swapped operator constant or a wrong regex flag is caught for all ordered pairs, not the sampled ones. (W) nothing under Compile/Parse writes memory that existed before the call: the parse is a function of the text (no cache of parsed sub-expressions or parser state shared between calls). NOT decided: the path/predicate/group re-association done by optimize. (PARENS) parentheses are opaque to the tree builder: BlockNode contents are read only by BlockNode's own methods. (WSDEF) every set of whitespace characters the lexer tests for is the same set. (BLOCKKEEP) every successful return of (*BlockNode).optimize is a *BlockNode: optimisation never removes parentheses.",
+		Explanation: "Extracts the complete parameter set of the Pratt parser from the current source — lexeme->token tables (symbols1, symbols2, lookupKeyword), the binding-power rows and the formula initBindingPowers applies to them, lookupBp, the single binding of the parser's lookup fields, the loop test of parseExpression, each led's recursive right-binding power, the nud/led tables, the lexeme->token->operator-constant->String() chain, and the allowRegex flag of every token consumption that is followed by an operand or by a return to the Pratt loop — and compares it with the precedence relation written in the property (10 rows, all left-associative except := and the greedy else branch). For the token set of the language these parameters determine the parse of every operator chain, so a one-row move, a flipped associativity, a <= in the loop, a swapped operator constant or a wrong regex flag is caught for all ordered pairs, not the sampled ones. (W) nothing under Compile/Parse writes memory that existed before the call: the parse is a function of the text (no cache of parsed sub-expressions or parser state shared between calls). NOT decided: the path/predicate/group re-association done by optimize. (PARENS) parentheses are opaque to the tree builder: BlockNode contents are read only by BlockNode's own methods. (WSDEF) every set of whitespace characters the lexer tests for is the same set. (BLOCKKEEP) every successful return of (*BlockNode).optimize is a *BlockNode: optimisation never removes parentheses. (LEDLOOP) outside parseExpression every call of parseExpression inside a loop has the constant 0 as its binding power.",
 		Rule:        commonRule,
 		Fixtures:    []string{"tab"},
 		Run: func(c *Ctx, r *Result) {
 			runPRATT(c, r, "PRATT")
 			runPARENS(c, r, "PARENS")
+			ll := runLEDLOOP(c, r, "LEDLOOP")
+			r.RequireMin("LEDLOOP parseExpression calls inside loops of nud/led functions", ll, 4)
 			bk := runBLOCKKEEP(c, r, "BLOCKKEEP")
 			r.RequireMin("BLOCKKEEP successful returns of (*BlockNode).optimize", bk, 1)
 			ws := runWSDEF(c, r, "WSDEF")
